@@ -11,7 +11,7 @@ use crate::util::run::*;
 
 pub use crate::sim::traffic::judge_frames as judge;
 
-pub const RULE: &str = "every frame handed to the device in dedicated TCP / UDP / ICMP / raw / reply-to-hostile-input / DHCP / DNS / ARP / NDISC / MLD / IGMP / SLAAC scenarios (Ethernet, IP and IEEE 802.15.4 media; MTU from the protocol minimum (IPv4 68, IPv6 1280, 802.15.4 125) upward; every combination of transmit checksum offload; transmit buffers prefilled with garbage) is parsed by an independent codec written from the RFCs: link header, ARP, IPv4/IPv6 header lengths == frame size (no trailing bytes), header checksum, fragment offsets/sizes, extension headers, ICMPv4/ICMPv6/NDISC/MLD/IGMP bodies, UDP length + checksum, TCP data offset + options + checksum, DHCP, DNS, 802.15.4 + 6LoWPAN IPHC/NHC/FRAG; frame <= MTU; IP source = an address the interface owns at that instant (:: / 0.0.0.0 only for DHCP without lease, MLD reports without link-local address, DAD-style NS/RS), never broadcast/multicast; raw-socket packets exempt from the source rule only. IPv4 and 6LoWPAN fragments are reassembled and the datagram is judged again. A class is (scenario, medium, family, MTU class, offload class) or (medium, kind of frame) or an application action.";
+pub const RULE: &str = "every frame handed to the device in dedicated TCP / UDP / ICMP / raw / reply-to-hostile-input / DHCP / DNS / ARP / NDISC / MLD / IGMP / SLAAC scenarios (Ethernet, IP and IEEE 802.15.4 media; MTU from the protocol minimum (IPv4 68, IPv6 1280, 802.15.4 125) upward; every combination of transmit checksum offload; transmit buffers prefilled with garbage) is parsed by an independent codec written from the RFCs: link header, ARP, IPv4/IPv6 header lengths == frame size (no trailing bytes), header checksum, fragment offsets/sizes, extension headers, ICMPv4/ICMPv6/NDISC/MLD/IGMP bodies, UDP length + checksum, TCP data offset + options + checksum, DHCP, DNS, 802.15.4 + 6LoWPAN IPHC/NHC/FRAG; frame <= MTU; IP source = an address the interface owns at that instant (:: / 0.0.0.0 only for DHCP without lease, MLD reports without link-local address, DAD-style NS/RS), never broadcast/multicast; raw-socket packets exempt from the source rule only. IPv4 and 6LoWPAN fragments are reassembled and the datagram is judged again. In addition the 6LoWPAN flows of C20 (short and extended link addresses, all address classes, multicast) are replayed and their frames judged one by one (size, MAC header, IPHC/NHC/FRAG headers, fragment alignment and cover). A class is (scenario, medium, family, MTU class, offload class) or (medium, kind of frame) or an application action.";
 
 pub fn tcp_case(i: u64, r: &mut Rng, c: &Ctx) -> CaseOut {
     scen::scen_tcp(i, r, c, Focus::Everything)
@@ -33,6 +33,31 @@ pub fn anyip_case(i: u64, r: &mut Rng, c: &Ctx) -> CaseOut {
 }
 pub fn mcast_case(i: u64, r: &mut Rng, c: &Ctx) -> CaseOut {
     scen::scen_mcast(i, r, c, Focus::Everything)
+}
+
+/// The 6LoWPAN flows of C20 (short and extended link addresses on either side, every address
+/// class, multicast destinations, payloads up to the fragmentation buffer), kept here for what they
+/// say about single frames: longer than 125 octets, an invalid MAC header, an undecodable
+/// IPHC/NHC/FRAG header, an empty or misaligned fragment, fragments that do not cover the datagram
+/// exactly once.  (What they say about losslessness is C20's business.)
+pub fn lowpan_flows_case(i: u64, r: &mut Rng, c: &Ctx) -> CaseOut {
+    let mut o = if i % 4 == 3 { crate::mon::c20::b2b_case(i, r, c) } else { crate::mon::c20::emit_case(i, r, c) };
+    const KINDS: [&str; 8] = ["frame-too-long", "mac-header", "frag-empty", "frag-not-multiple-of-8", "frag-header", "frag-cover", "undecodable", "datagram-malformed"];
+    let v = std::mem::take(&mut o.violations);
+    for mut x in v {
+        if !x.sig.contains(":wire:") {
+            continue;
+        }
+        if let Some(k) = KINDS.iter().find(|k| x.sig.contains(*k)) {
+            x.sig = format!("154-flow:{}", k);
+            if !o.violations.iter().any(|y| y.sig == x.sig) {
+                o.violations.push(x);
+            }
+        }
+    }
+    o.classes = o.classes.into_iter().map(|c| format!("154-flow|{}", c)).collect();
+    o.count("lowpan_flow_cases", 1);
+    o
 }
 
 pub fn monitor() -> super::Monitor {
@@ -82,6 +107,7 @@ pub fn monitor() -> super::Monitor {
             ("dhcp_deconfigured_events_applied", 1500),
             ("dns_query_datagrams_seen", 800),
             ("udp_datagrams_whose_computed_checksum_is_zero_sent_as_ffff", 60),
+            ("lowpan_flow_cases", 5000),
             ("distinct", 300),
         ],
         parts: vec![
@@ -92,6 +118,7 @@ pub fn monitor() -> super::Monitor {
             super::Part { name: "dns", cases: |c| c.n(2000, 40_000), f: dns_case },
             super::Part { name: "mcast", cases: |c| c.n(3000, 60_000), f: mcast_case },
             super::Part { name: "anyip", cases: |c| c.n(3000, 60_000), f: anyip_case },
+            super::Part { name: "lowpan-flows", cases: |c| c.n(8000, 80_000), f: lowpan_flows_case },
         ],
         post: None,
     }
